@@ -27,6 +27,16 @@ MCShape ==
    u_frag1    |-> Ip("ma", "mb", FALSE, 0, 0, 0, 0, "udp", 1, 0, 0, "pu1"),
    t_frag1t   |-> Ip("ma", "mb", TRUE, 100, 5, 0, 0, "tcp", 1, 0, 0, "pt1"),
    u_frag2    |-> Ip("ma", "mb", FALSE, 0, 0, 0, 0, "udp", 2, 0, 0, "p8"),
+   \* IPv4 header options and TCP options
+   u_udp_ipopt    |-> WithOpts(Ip("ma", "mb", FALSE, 0, 0, 0, 0, "udp", 0, 1000, 2000, "p8"), "ra", "-"),
+   t_tcp_opts     |-> WithOpts(Ip("ma", "mb", TRUE, 100, 5, 0, 40, "tcp", 0, 1000, 2000, "p8"), "ts", "big"),
+   u_tcp_tcpopt   |-> WithOpts(Ip("ma", "mb", FALSE, 0, 0, 0, 0, "tcp", 0, 1000, 2000, "p8"), "-", "mss"),
+   u_tcp_eolopt   |-> WithOpts(Ip("ma", "mb", FALSE, 0, 0, 0, 0, "tcp", 0, 1000, 2000, "p0"), "ra", "eol"),
+   u_tcp_opts_odd |-> WithOpts(Ip("ma", "mb", FALSE, 0, 0, 0, 3, "tcp", 0, 1000, 2000, "p7"), "nop", "mss"),
+   u_icmp_ipopt   |-> WithOpts(Ip("ma", "mb", FALSE, 0, 0, 0, 0, "icmp", 0, 0, 0, "p9"), "rr", "-"),
+   t_ipx_ipopt    |-> WithOpts(Ip("ma", "mb", TRUE, 1, 0, 0, 0, "x", 0, 0, 0, "p8"), "nop", "-"),
+   u_frag2_ipopt  |-> WithOpts(Ip("ma", "mb", FALSE, 0, 0, 0, 0, "udp", 2, 0, 0, "p8"), "ra", "-"),
+   u_frag1_ipopt  |-> WithOpts(Ip("ma", "mb", FALSE, 0, 0, 0, 0, "udp", 1, 0, 0, "pu1"), "ts", "-"),
    u_arp      |-> NonIp("bc", "mb", FALSE, 0, 0, "arp", "p0"),
    t_arp      |-> NonIp("bc", "mb", TRUE, 100, 5, "arp", "p0"),
    u_oth      |-> NonIp("ma", "mb", FALSE, 0, 0, "oth", "p7"),
@@ -83,20 +93,22 @@ AllBitOps == [p \in 1..3 |-> BitOps(Bits)]
 
 \* ---- A: every action list of length <= 2 (+ sandwiches, rewrite pairs) in a flow entry
 AQ_FlowLists == UpTo2(RewQ \cup OutQ) \cup Sandwich({O2, O3}, RewQ) \cup Seen2(RewQ)
-AQ_RxShapes == {"u_tcp", "t_udp", "u_icmp", "u_arp", "u_udp_ecn", "u_tcp_odd", "t_cfi"}
+AQ_RxShapes == {"u_tcp", "t_udp", "u_icmp", "u_arp", "u_udp_ecn", "u_tcp_odd", "t_cfi",
+                "u_udp_ipopt", "t_tcp_opts"}
 AT_FlowLists == UpTo2(RewT \cup OutT) \cup Sandwich({O2, O3, OC}, RewT) \cup Seen2(RewT)
 AT_RxShapes == DOMAIN MCShape \ {"u_big"}
 
 \* ---- B: every action list of length <= 2 in a PACKET_OUT (no flow entry: TABLE misses)
 BQ_OutLists == TableLast(UpTo2(RewQ \cup OutQ \cup {OTAB}))
-BQ_OutShapes == {"u_udp", "t_tcp", "u_arp"}
+BQ_OutShapes == {"u_udp", "t_tcp", "u_arp", "u_tcp_opts_odd"}
 BT_OutLists == TableLast(UpTo2(RewT \cup OutT \cup {OTAB}))
-BT_OutShapes == {"u_udp", "t_tcp", "u_arp", "t_udp", "u_icmp", "u_oth", "u_udp_odd", "bpdu"}
+BT_OutShapes == {"u_udp", "t_tcp", "u_arp", "t_udp", "u_icmp", "u_oth", "u_udp_odd", "bpdu",
+                 "u_udp_ipopt", "t_tcp_opts", "u_tcp_opts_odd", "u_icmp_ipopt"}
 
 \* ---- T: output:TABLE against a table that holds an entry
 T_FlowLists == {<<O3>>, <<DST, OFL>>, <<OC>>, <<VID7, OIN>>, <<>>}
 T_OutLists == {<<OTAB>>, <<O2, OTAB>>, <<OC, OTAB>>} \cup {<<r, OTAB>> : r \in RewQ}
-T_Shapes == {"u_udp", "t_tcp"}
+T_Shapes == {"u_udp", "t_tcp_opts"}
 
 \* ---- C: the port-flag product
 CQ_FlowLists == {<<OFL>>, <<OALL>>, <<OC>>}
@@ -113,13 +125,18 @@ CT_ModOps == [p \in {1, 2} |-> IF p = 1 THEN BitOps(Bits) \cup WideOps
 \* ---- D: frames handed to the controller, then released from their buffer
 D_FlowLists == {<<OC, DST, O2>>, <<VID7, OC, STRIP, OC0>>, <<OC64>>, <<NSRC, OC, TPS>>}
 D_BufLists == {<<O3>>, <<NDST, OFL>>, <<OIN>>, <<OC>>, <<>>}
-D_Shapes == {"u_udp", "t_tcp"}
-DQ_Shapes == {"t_tcp"}
+D_Shapes == {"u_udp", "t_tcp", "t_tcp_opts"}
+DQ_Shapes == {"t_tcp_opts"}
 
 \* ---- F: fragments and the OFPC_FRAG_DROP mode
 F_FlowLists == {<<O2>>, <<TPS, NSRC, O2>>, <<DST, VID7, OFL, OC>>}
-F_Shapes == {"u_frag1", "t_frag1t", "u_frag2", "u_udp", "u_arp"}
+F_Shapes == {"u_frag1", "t_frag1t", "u_frag2", "u_udp", "u_arp", "u_frag2_ipopt", "u_frag1_ipopt"}
 F_ModOps == [p \in {1} |-> BitOps({"NO_RECV"})]
+
+\* ---- P: EVERY operation sequence of length D over a small alphabet (traffic, port-mod, traffic ...)
+P_FlowLists == {<<OFL>>}
+P_OutLists == {<<OFL>>, <<OALL>>, <<O1>>}
+P_ModOps == [p \in {1} |-> BitOps({"NO_FLOOD", "NO_FWD", "PORT_DOWN"})]
 
 \* ---- S: simulation (long behaviours); the flow lists come from the check
 \* (seeded random lists of length <= 6 over the whole alphabet, passed as JSON)
@@ -128,7 +145,7 @@ S_OutLists == {<<OFL>>, <<OTAB>>, <<VID7, O2, STRIP, O3>>, <<OC64, NSRC, TPD, OA
                <<TOS, PCP5, OC, O1>>}
 S_BufLists == {<<O3>>, <<NDST, OFL>>, <<OIN, STRIP, O2>>, <<>>}
 S_Shapes == {"u_tcp", "t_udp", "u_icmp", "t_arp", "u_oth", "bpdu", "u_big", "u_udp_ecn", "u_frag2",
-             "u_frag1", "t_cfi", "u_udp_odd"}
+             "u_frag1", "t_cfi", "u_udp_odd", "u_udp_ipopt", "t_tcp_opts", "u_tcp_eolopt", "u_icmp_ipopt"}
 
 ASSUME NoTable(AT_FlowLists \cup T_FlowLists \cup C_FlowLists \cup D_FlowLists \cup F_FlowLists)
 =============================================================================
